@@ -126,6 +126,16 @@ def run(ctx):
             for setting in ((1e-6, 1 - 1e-6, 1e-9), (1e-2, 0.9, 1e-8), (1e-5, 1 - 1e-5, 1e-10)):
                 for mult in (300, 1000):
                     cases.append(mk_case(rng, pm, "offset", setting, rng.choice(["Wx", "Wz"]), Q.seed_vectors(rng, min(d, 12), 1)[0], setting[2] * mult))
+        # targets that touch +-1 at the end points (T_n, normalised members) with settings where suc (1 + eps/2) > 1: after capitalisation the
+        # target leaves the unit disc by at most eps/2 — it has to be refused, not quietly rescaled
+        for n in ((1, 2, 3, 5) if quick else range(1, 11)):
+            tn = [float(x) for x in Q.cheb2mono([Fraction(0)] * n + [Fraction(1)])]
+            nm = gen_poly(rng, n, "tight")
+            v1 = sum(nm)
+            nm = [x / v1 for x in nm] if abs(v1) > 0.2 and Q.sup_estimate([x / v1 for x in nm]) <= 1.0 + 1e-12 else tn
+            for p_, fam in ((tn, "touch:T_n"), ([-x for x in tn], "touch:-T_n"), (nm, "touch:normalised")):
+                for setting in ((1e-2, 1 - 1e-4, 1e-6), (0.05, 1.0, 1e-6), (1e-2, 1 - 1e-3, 1e-7)):
+                    cases.append(mk_case(rng, p_, fam, setting, rng.choice(["Wx", "Wz"]), Q.seed_vectors(rng, min(n, 12), 1)[0], None))
         # integer-valued coefficient vectors (+-T_n, monomials) in every container the entry point accepts
         for n in (range(1, 8) if quick else range(1, 13)):
             tn = [float(x) for x in Q.cheb2mono([Fraction(0)] * n + [Fraction(1)])]
